@@ -269,7 +269,7 @@ func (r *Run) Violation(sig, caseID, detail string) {
 	os.MkdirAll(dir, 0o755)
 	h := fnv.New32a()
 	h.Write([]byte(sig))
-	name := fmt.Sprintf("%s-%s-%08x.json", r.res.Property, r.res.Tier, h.Sum32())
+	name := fmt.Sprintf("%s-%s-%08x-s%d.json", r.res.Property, r.res.Tier, h.Sum32(), r.shardI)
 	v.Replay = filepath.Join(dir, name)
 	b, _ := json.MarshalIndent(map[string]interface{}{"property": r.res.Property, "tier": r.res.Tier, "sig": sig, "case": caseID, "detail": detail}, "", " ")
 	os.WriteFile(v.Replay, b, 0o644)
